@@ -1,6 +1,6 @@
 (* C05  No whitespace is ever injected into inline content. *)
 From HT Require Import Model.Str Model.Tree Model.Render Gen.Tables Spec.Layout
-     Proofs.RenderInline Proofs.RenderContig.
+     Proofs.RenderInline Proofs.RenderContig Proofs.RenderEdges.
 
 (* A tag in which no tag has whitespace enabled renders as the exact concatenation of its
    open tags, content and close tags (preceded by the requested indentation), for every
@@ -56,3 +56,50 @@ Example C05_example :
   /\ exists ps, render_tag 1 [10]
        (TagN [115] false [] ([TagN [100] true [] []] ++ run ++ [TagN [112] true [] []])) = Ok ps.
 Proof. vm_compute. repeat split; try reflexivity. eexists. reflexivity. Qed.
+
+(* Layout whitespace only ever appears immediately inside or immediately outside the opening
+   or closing tag of a whitespace-enabled tag: in the rendering of ANY tree (block-inside-inline
+   nestings included), with any eol, every non-empty whitespace piece -- skipping over
+   neighbouring whitespace pieces, empty or not -- is immediately preceded or immediately
+   followed by a tag piece (open, self-closing or close) of a whitespace-enabled element. *)
+Theorem C05_ws_at_block_edges :
+  forall (M : Type) (t : node M) (eol : str) (ps : list piece),
+    render_tag 0 eol t = Ok ps ->
+    forall a s b, ps = a ++ PWs s :: b -> s <> [] -> at_block_edge a b.
+Proof. intros M. exact ws_at_block_edges. Qed.
+Print Assumptions C05_ws_at_block_edges.
+
+(* Any indent: the one possible exception is the first piece of the output, the indentation
+   requested by the caller, and only when the tag itself is not whitespace-enabled. *)
+Theorem C05_ws_at_block_edges_indent :
+  forall (M : Type) (t : node M) (i : nat) (eol : str) (ps : list piece),
+    render_tag i eol t = Ok ps ->
+    forall a s b, ps = a ++ PWs s :: b -> s <> [] ->
+      (a <> [] \/ ws_of t = true \/ i = O) -> at_block_edge a b.
+Proof. intros M. exact tag_ws_at_block_edges. Qed.
+Print Assumptions C05_ws_at_block_edges_indent.
+
+(* TagList rendering: no exception with add_ws = False or at indent 0; otherwise the one
+   possible exception is the first piece of the output (the first item's indentation). *)
+Theorem C05_ws_at_block_edges_list :
+  forall (M : Type) (l : list (node M)) (i : nat) (eol : str) (aw esc : bool)
+         (ps : list piece),
+    render_list i eol aw esc l = Ok ps ->
+    forall a s b, ps = a ++ PWs s :: b -> s <> [] ->
+      (a <> [] \/ aw = false \/ i = O) -> at_block_edge a b.
+Proof. intros M. exact list_ws_at_block_edges. Qed.
+Print Assumptions C05_ws_at_block_edges_list.
+
+(* the boolean scanner used in the example below decides exactly the stated property *)
+Theorem C05_ws_edges_okb_spec :
+  forall ps, ws_edges_okb ps = true <->
+             (forall a s b, ps = a ++ PWs s :: b -> s <> [] -> at_block_edge a b).
+Proof. exact ws_edges_okb_spec. Qed.
+Print Assumptions C05_ws_edges_okb_spec.
+
+(* non-vacuity: nine non-empty whitespace pieces, four of them around a block tag nested in
+   an inline tag *)
+Example C05_edges_example :
+  exists ps, render_tag 0 [10] edges_example = Ok ps
+             /\ nonempty_ws ps = 9%nat /\ ws_edges_okb ps = true.
+Proof. eexists. vm_compute. repeat split. Qed.
